@@ -1,6 +1,9 @@
 import TwistedModel.App.ClientService
 import TwistedProps.C58.Ids
+import TwistedProps.C58.Defs
+import TwistedProps.C58.Handler
 import TwistedProps.C58.Inv
+import TwistedProps.C58.Consumers
 /-!
 C58 — ClientService keeps one connection and resolves every waiter.
 
@@ -16,6 +19,15 @@ The code FALSIFIES the full statement on the `prepareConnection` paths (a hook t
 Deferred which is still pending when the connection drops or the service stops): see the three
 `…_counterexample` theorems, replayed on the real service by the oracle (known-findings.txt keys
 prepare-drop-rejected, prepare-reject-leaks-connection, stop-during-prepare).  What is proved:
+
+The history space includes what the APPLICATION protocol's own `connectionLost` handler does while a loss is
+delivered (event `dropH i acts raises`: user code run by `_ReconnectingProtocolProxy.connectionLost` before the
+service is notified — it may call whenConnected / startService / stopService, and it may raise any exception).
+`HookFree` admits every such event, so every theorem below quantifies over them; in addition
+`drop_notifies_whatever_the_handler_does` (ALL states), `unsolicited_drop_schedules_retry_partial`,
+`every_loss_completes_stop_partial` and `started_service_is_never_idle_partial` say that a loss is always noticed.
+Consumers of the Deferreds may call `startService()` from their callbacks (`runC`, re-entrant start postponed by
+automat): `consumer_restart_is_a_start_event` reduces every such history to a plain one, for ALL histories.
 
 * for ALL histories (every event, any hook): every whenConnected and stopService Deferred fires at most once,
   none is lost, a fired one is never still waiting (`whenConnected_fires_at_most_once`, `stopService_fires_at_most_once`,
@@ -121,7 +133,8 @@ theorem retry_delay_is_policy_of_failure_count_partial (pol : Nat → Nat) (h : 
     completes a restart, or when the pending retry's remaining time has elapsed -/
 theorem attempt_starts_only_on_start_or_due_retry_partial (pol : Nat → Nat) (h : List Ev) (e : Ev)
     (hf : HookFree (h ++ [e])) (h0 : (run pol init h).att = .none) (h1 : (run pol init (h ++ [e])).att = .pending) :
-    e = .start ∨ (∃ i, e = .drop i) ∨ ∃ t r, e = .adv t ∧ (run pol init h).timer = some r ∧ r ≤ t := by
+    e = .start ∨ (∃ i, e = .drop i) ∨ (∃ t r, e = .adv t ∧ (run pol init h).timer = some r ∧ r ≤ t)
+      ∨ ∃ i acts r, e = .dropH i acts r := by
   have hr := good_run pol init 0 h good_init rfl (hookFree_split hf).1
   have hs := good_step pol _ e hr.1 (hookFree_split hf).2
   rw [run_append] at h1
@@ -252,6 +265,139 @@ theorem stopService_counterexample :
     let s := run (fun n => n + 1) init [.start, .csucc .defer, .stop]
     s.stopFired = [0] ∧ s.conns = [⟨0, false⟩] ∧ s.ms = .stopped := by decide
 
+/-! ### the loss of a connection is always noticed (whatever the application's `connectionLost` handler does) -/
+
+/-- ALL states (good or not, any hook): the state of the service after a loss does not depend on whether the
+    application's handler raises — the notification is in a `finally` — and neither does acceptance of the event;
+    a handler that makes no calls leaves exactly the state of a plain `Protocol`'s. -/
+theorem drop_notifies_whatever_the_handler_does (pol : Nat → Nat) (s : St) (i : Nat) (acts : List Act) (r : Bool) :
+    (step pol s (.dropH i acts r)).1 = (step pol s (.dropH i acts false)).1
+    ∧ ((step pol s (.dropH i acts r)).2 = .rejected ↔ (step pol s (.dropH i acts false)).2 = .rejected)
+    ∧ (step pol s (.dropH i [] r)).1 = (step pol s (.drop i)).1 := by
+  refine ⟨?_, ?_, ?_⟩
+  · simp only [step, proxyConnectionLost]; split <;> rfl
+  · simp only [step, proxyConnectionLost]
+    split
+    · generalize (clientDisconnected pol _).2 = b
+      cases b <;> cases r <;> simp
+    · simp
+  · rw [drop_eq_dropH]; simp only [step, proxyConnectionLost]; split <;> rfl
+
+/-- a started service is never idle: exactly one of {its connection, an attempt in progress, a scheduled retry} exists
+    (this is what fails when a loss goes unnoticed) -/
+theorem started_service_is_never_idle_partial (pol : Nat → Nat) (h : List Ev) (hf : HookFree h) :
+    (run pol init h).running = true →
+      inProgress (run pol init h) + (if (run pol init h).timer.isSome then 1 else 0) = 1 := by
+  have hg := (good_run pol init 0 h good_init rfl hf).1
+  generalize run pol init h = s at hg
+  rcases s with ⟨ms, running, cur, att, conns, nconn, timer, failed, waiters, nwait, fired, stopWaiters, nstop, stopFired⟩
+  cases ms <;> simp_all [Good, inProgress]
+
+/-- When a connection that nobody asked to close is lost — with a plain handler, a handler that calls back into the
+    service (without stopping it), a handler that raises an `Exception` or a `BaseException` — the service has
+    noticed by the time the event returns: nothing is open, the failure counts, the retry is scheduled after
+    `policy(consecutive failures)`, and a `whenConnected` issued now waits for the NEXT connection instead of being
+    answered with the dead one. -/
+theorem unsolicited_drop_schedules_retry_partial (pol : Nat → Nat) (h : List Ev) (e : Ev)
+    (hf : HookFree (h ++ [e])) (hd : connectionDrops (run pol init h) e = true) :
+    let s' := run pol init (h ++ [e])
+    inProgress s' = 0
+    ∧ consecutiveFailures pol init 0 (h ++ [e]) = consecutiveFailures pol init 0 h + 1
+    ∧ s'.timer = some (pol (consecutiveFailures pol init 0 (h ++ [e])))
+    ∧ ∀ k, (step pol s' (.when k)).1.waiters = s'.waiters ++ [(s'.nwait, k)]
+          ∧ (step pol s' (.when k)).1.fired = s'.fired := by
+  intro s'
+  have hr := good_run pol init 0 h good_init rfl (hookFree_split hf).1
+  have hr' := good_run pol init 0 (h ++ [e]) good_init rfl hf
+  have hs := good_step_drops pol _ e hr.1 hd
+  have hs' : s' = (step pol (run pol init h) e).1 := run_append pol init h e
+  rw [← hs'] at hs
+  obtain ⟨h1, h2, h3, h4⟩ := hs
+  have hsucc : isSuccess (run pol init h) e = false := by
+    cases e <;> simp_all [isSuccess, connectionDrops]
+  refine ⟨by simp [inProgress, h3, h4], ?_, ?_, fun k => ?_⟩
+  · rw [consecutiveFailures_append]; simp [failures, hd, hsucc]
+  · rw [h2, ← hr'.2]
+  · simp [step, mWhen, h1]
+
+/-- Every loss of a connection (requested or not, any handler) leaves nothing open and every stopService Deferred
+    fired — or, if the service was restarted meanwhile, fired and the new attempt under way. -/
+theorem every_loss_completes_stop_partial (pol : Nat → Nat) (h : List Ev) (i : Nat) (acts : List Act) (r : Bool)
+    (hf : HookFree h) (hi : i < (run pol init h).conns.length) :
+    let s' := run pol init (h ++ [.dropH i acts r])
+    s'.conns = [] ∧ s'.stopWaiters = [] ∧ ∀ j, j < s'.nstop → j ∈ s'.stopFired := by
+  intro s'
+  have hr := good_run pol init 0 h good_init rfl hf
+  have hf' : HookFree (h ++ [.dropH i acts r]) := by
+    intro x hx
+    rcases List.mem_append.mp hx with hx | hx
+    · exact hf x hx
+    · rw [List.mem_singleton.mp hx]; rfl
+  have hg' := (good_run pol init 0 _ good_init rfl hf').1
+  have hs' : s' = (step pol (run pol init h) (.dropH i acts r)).1 := run_append pol init h _
+  have hc : s'.conns = [] := hs' ▸ dropH_conns_nil pol _ i acts r hr.1 hi
+  have hw : s'.stopWaiters = [] := by
+    have hg'' : Good s' := hg'
+    generalize s' = t at hc hg''
+    rcases t with ⟨ms, running, cur, att, conns, nconn, timer, failed, waiters, nwait, fired, stopWaiters, nstop, stopFired⟩
+    cases ms <;> simp_all [Good]
+  refine ⟨hc, hw, fun j hj => ?_⟩
+  have := (every_deferred_waiting_or_fired pol (h ++ [.dropH i acts r])).2.2.1 j
+  rcases this.mp hj with hm | hm
+  · have hm' : j ∈ s'.stopWaiters := hm
+    rw [hw] at hm'; cases hm'
+  · exact hm
+
+/-! ### consumers that restart the service from a callback of a stopService / whenConnected Deferred -/
+
+/-- no event of the history involves a hook that raises or returns a Deferred -/
+def HookFreeC (h : List EvC) : Prop := ∀ e ∈ h, hookFree e.ev = true
+
+instance (h : List EvC) : Decidable (HookFreeC h) := by unfold HookFreeC; infer_instance
+
+/-- ALL histories, any flags, any state: a history whose consumers call `startService()` when their Deferred fires
+    (a re-entrant start, postponed by automat) is the plain history with those starts written out as `start` events /
+    `startService` calls of the `connectionLost` handler; hook-freeness is preserved.  Every theorem above therefore
+    holds for such histories — the next four are the instances used by the oracle. -/
+theorem consumer_restart_is_a_start_event (pol : Nat → Nat) (fl : Flags) (s : St) (h : List EvC) :
+    runC pol fl s h = run pol s (expand pol fl s h) ∧ (HookFreeC h → HookFree (expand pol fl s h)) :=
+  ⟨runC_eq_run_expand pol fl s h, hookFree_expand pol fl s h⟩
+
+theorem good_runC (pol : Nat → Nat) (fl : Flags) (h : List EvC) (hf : HookFreeC h) : Good (runC pol fl init h) := by
+  rw [runC_eq_run_expand]
+  exact (good_run pol init 0 _ good_init rfl (hookFree_expand pol fl init h hf)).1
+
+theorem no_rejected_event_restarting_consumers_partial (pol : Nat → Nat) (fl fl' : Flags) (h : List EvC) (e : Ev)
+    (hf : HookFreeC h) (he : hookFree e = true) : (stepC pol fl' (runC pol fl init h) e).2 ≠ .rejected := by
+  obtain ⟨e', _, _, h2, h3⟩ := stepC_outcome pol fl' (runC pol fl init h) e
+  rw [h3]
+  exact (good_step pol _ e' (good_runC pol fl h hf) (h2 ▸ he)).2.1
+
+theorem at_most_one_connection_or_attempt_restarting_consumers_partial (pol : Nat → Nat) (fl : Flags) (h : List EvC)
+    (hf : HookFreeC h) : inProgress (runC pol fl init h) ≤ 1 := by
+  rw [runC_eq_run_expand]
+  exact at_most_one_connection_or_attempt_partial pol _ (hookFree_expand pol fl init h hf)
+
+theorem started_service_is_never_idle_restarting_consumers_partial (pol : Nat → Nat) (fl : Flags) (h : List EvC)
+    (hf : HookFreeC h) : (runC pol fl init h).running = true →
+      inProgress (runC pol fl init h) + (if (runC pol fl init h).timer.isSome then 1 else 0) = 1 := by
+  rw [runC_eq_run_expand]
+  exact started_service_is_never_idle_partial pol _ (hookFree_expand pol fl init h hf)
+
+theorem stopService_fires_once_closed_restarting_consumers_partial (pol : Nat → Nat) (fl : Flags) (h : List EvC)
+    (hf : HookFreeC h) : (runC pol fl init h).conns = [] → (runC pol fl init h).stopWaiters = [] := by
+  rw [runC_eq_run_expand]
+  exact stopService_fires_once_closed_partial pol _ (hookFree_expand pol fl init h hf)
+
+-- non-vacuity: `stopService().addCallback(lambda _: svc.startService())` while waiting to retry restarts at once;
+-- a whenConnected consumer that restarts on CancelledError does so when the closing connection is finally lost
+example : (runC id ⟨[], []⟩ init [⟨.start, false⟩, ⟨.cfail, false⟩, ⟨.stop, true⟩]).ms = .connecting
+    ∧ (runC id ⟨[], []⟩ init [⟨.start, false⟩, ⟨.cfail, false⟩, ⟨.stop, true⟩]).stopFired = [0]
+    ∧ expand id ⟨[], []⟩ init [⟨.start, false⟩, ⟨.cfail, false⟩, ⟨.stop, true⟩] = [.start, .cfail, .stop, .start] := by decide
+example : expand id ⟨[], []⟩ init [⟨.start, false⟩, ⟨.csucc .plain, false⟩, ⟨.stop, false⟩, ⟨.when none, true⟩,
+      ⟨.dropH 0 [.stop] true, false⟩]
+    = [.start, .csucc .plain, .stop, .when none, .dropH 0 [.stop] true, .start] := by decide
+
 /-! ### non-vacuity: a long hook-free history exercising every state, and the theorems' hypotheses on it -/
 
 def demo : List Ev :=
@@ -276,5 +422,34 @@ example : attemptFails (run id init [.when (some 1), .when (some 2), .start]) .c
 example : (run id init [.start, .csucc .plain, .stop]).stopWaiters = [0]
     ∧ (run id init [.start, .csucc .plain, .stop]).conns = [⟨0, true⟩]
     ∧ (run id init [.start, .csucc .plain, .stop, .drop 0]).stopFired = [0] := by decide
+
+/-- a hook-free history through every kind of handler: raising on an unsolicited loss, re-entrant (whenConnected,
+    stop + start = restart) on it, raising while the service is stopping -/
+def demoH : List Ev :=
+  [.start, .csucc .plain, .when none, .dropH 0 [] true, .when (some 2), .adv 1, .adv 1, .csucc .plain,
+   .dropH 0 [.when none, .stop, .start] true, .cfail, .adv 9, .csucc .plain, .stop, .when none, .dropH 0 [.start, .stop] true]
+
+example : HookFree demoH := by decide
+example : (run (fun n => 2 * n) init demoH).ms = .stopped
+    ∧ (run (fun n => 2 * n) init demoH).fired = [(0, .conn 0), (1, .conn 1), (2, .conn 1), (3, .cancelled)]
+    ∧ (run (fun n => 2 * n) init demoH).stopFired = [0, 1, 2] := by decide
+-- the handler raises while an established connection drops: hypothesis of `unsolicited_drop_schedules_retry_partial`
+-- holds, the retry is policy(1) away, the next whenConnected waits, the caller sees the handler's exception
+example : connectionDrops (run (fun n => 2 * n) init [.start, .csucc .plain]) (.dropH 0 [] true) = true
+    ∧ (run (fun n => 2 * n) init [.start, .csucc .plain, .dropH 0 [] true]).timer = some 2
+    ∧ (step (fun n => 2 * n) (run (fun n => 2 * n) init [.start, .csucc .plain]) (.dropH 0 [] true)).2 = .raised
+    ∧ (run (fun n => 2 * n) init [.start, .csucc .plain, .dropH 0 [] true, .when none]).waiters = [(0, none)] := by decide
+-- a handler that re-enters without stopping: still a failure; one that stops the service: not a failure, all stop Deferreds fire
+example : connectionDrops (run id init [.start, .csucc .plain]) (.dropH 0 [.when none, .start] true) = true
+    ∧ connectionDrops (run id init [.start, .csucc .plain]) (.dropH 0 [.stop] true) = false
+    ∧ (run id init [.start, .csucc .plain, .dropH 0 [.stop, .stop] true]).stopFired = [0, 1]
+    ∧ (run id init [.start, .csucc .plain, .dropH 0 [.stop, .stop] true]).ms = .stopped := by decide
+-- `every_loss_completes_stop_partial`: hypothesis satisfiable with stop Deferreds pending
+example : 0 < (run id init [.start, .csucc .plain, .stop, .stop]).conns.length
+    ∧ (run id init [.start, .csucc .plain, .stop, .stop]).stopWaiters = [0, 1]
+    ∧ (run id init [.start, .csucc .plain, .stop, .stop, .dropH 0 [.stop] true]).stopFired = [0, 1, 2] := by decide
+-- `started_service_is_never_idle_partial` is about something: running with a retry pending / with a connection
+example : (run id init [.start, .csucc .plain, .dropH 0 [] true]).running = true
+    ∧ (run id init [.start, .csucc .plain, .dropH 0 [] true]).timer = some 1 := by decide
 
 end TwistedProps.C58
